@@ -14,13 +14,7 @@ macro_rules! lib_only {
     };
 }
 
-pub(crate) fn fmt_stub(_args: std::fmt::Arguments<'_>) -> String {
-    String::new()
-}
-
-pub(crate) fn regex_new_stub(_re: &str) -> fancy_regex::Result<fancy_regex::Regex> {
-    Err(fancy_regex::Error::ParseError(0, fancy_regex::ParseError::InvalidRepeat))
-}
+include!("/verif/kani/common.rs");
 
 // ---------------------------------------------------------------------------------------------
 // a recording evaluation context: the real RecordTracer/EvalContext traits, implemented by a flat event log
@@ -200,6 +194,7 @@ fn cnf_shape(nlines: usize, lens: [usize; 3]) {
 macro_rules! cnf_harness {
     ($name:ident, $nlines:expr, $a:expr, $max:expr) => {
         #[cfg_attr(kani, kani::proof)]
+        #[cfg_attr(kani, kani::unwind(5))]
         #[cfg_attr(kani, kani::stub(alloc::fmt::format, fmt_stub))]
         #[cfg_attr(verif_replay, test)]
         fn $name() {
@@ -218,6 +213,7 @@ macro_rules! cnf_harness {
 }
 // empty conjunction
 #[cfg_attr(kani, kani::proof)]
+#[cfg_attr(kani, kani::unwind(5))]
 #[cfg_attr(kani, kani::stub(alloc::fmt::format, fmt_stub))]
 #[cfg_attr(verif_replay, test)]
 fn k_cnf_0() {
@@ -233,3 +229,211 @@ cnf_harness!(k_cnf_2_3, 2usize, 3usize, 3usize);
 cnf_harness!(k_cnf_3_1, 3usize, 1usize, 3usize);
 cnf_harness!(k_cnf_3_2, 3usize, 2usize, 3usize);
 cnf_harness!(k_cnf_3_3, 3usize, 3usize, 3usize);
+
+// ---------------------------------------------------------------------------------------------
+// U-unary: unary_operation truth tables x operator-level not x prefix not (C01, C03)
+// ---------------------------------------------------------------------------------------------
+
+/// context whose query() returns a prepared selection
+pub(crate) struct QueryCtx {
+    pub inner: MockCtx,
+    pub result: Option<Vec<QueryResult>>,
+}
+
+impl<'value> RecordTracer<'value> for QueryCtx {
+    fn start_record(&mut self, c: &str) -> Result<()> {
+        self.inner.start_record(c)
+    }
+    fn end_record(&mut self, c: &str, record: RecordType<'value>) -> Result<()> {
+        let kind_status = match &record {
+            RecordType::ClauseValueCheck(ClauseCheck::Success) => Some(0u8),
+            RecordType::ClauseValueCheck(_) => Some(1u8),
+            _ => None,
+        };
+        if let Some(s) = kind_status {
+            if self.inner.depth > 0 && self.inner.n < LOG {
+                self.inner.log[self.inner.n] = Ev { depth: self.inner.depth, kind: 3, status: s };
+                self.inner.n += 1;
+            }
+            if self.inner.depth == 0 {
+                self.inner.underflow = true;
+            } else {
+                self.inner.depth -= 1;
+            }
+            std::mem::forget(record);
+            Ok(())
+        } else {
+            self.inner.end_record(c, record)
+        }
+    }
+}
+
+impl<'value, 'loc: 'value> EvalContext<'value, 'loc> for QueryCtx {
+    fn query(&mut self, _query: &'value [QueryPart<'loc>]) -> Result<Vec<QueryResult>> {
+        match self.result.take() {
+            Some(v) => Ok(v),
+            None => Ok(Vec::new()),
+        }
+    }
+    fn find_parameterized_rule(&mut self, _rule_name: &str) -> Result<&'value ParameterizedRule<'loc>> {
+        Err(Error::MissingValue(String::new()))
+    }
+    fn root(&mut self) -> Rc<PathAwareValue> {
+        unreachable!()
+    }
+    fn rule_status(&mut self, _rule_name: &'value str) -> Result<Status> {
+        Err(Error::MissingValue(String::new()))
+    }
+    fn resolve_variable(&mut self, _variable_name: &'value str) -> Result<Vec<QueryResult>> {
+        Ok(vec![])
+    }
+    fn add_variable_capture_key(&mut self, _variable_name: &'value str, _key: Rc<PathAwareValue>) -> Result<()> {
+        Ok(())
+    }
+}
+
+/// value kinds: 0 Int, 1 empty String, 2 non-empty String, 3 empty List, 4 non-empty List, 5 Null, 6 Bool, 7 Float, 8 UnResolved
+fn value_of(kind: u8) -> QueryResult {
+    use crate::rules::path_value::Path;
+    match kind {
+        0 => qr_int(kani::any()),
+        1 => qr_str(String::new()),
+        2 => {
+            let mut s = String::with_capacity(2);
+            s.push('x');
+            qr_str(s)
+        }
+        3 => qr_val(PathAwareValue::List((Path::root(), Vec::new()))),
+        4 => {
+            let mut v = Vec::with_capacity(1);
+            v.push(PathAwareValue::Null(Path::root()));
+            qr_val(PathAwareValue::List((Path::root(), v)))
+        }
+        5 => qr_val(PathAwareValue::Null(Path::root())),
+        6 => qr_val(PathAwareValue::Bool((Path::root(), kani::any()))),
+        7 => qr_val(PathAwareValue::Float((Path::root(), kani::any()))),
+        _ => qr_unresolved(),
+    }
+}
+
+/// documented truth of `value <op>` (None = undefined: an evaluation error)
+fn unary_truth(op: CmpOperator, kind: u8) -> Option<bool> {
+    let unresolved = kind == 8;
+    Some(match op {
+        CmpOperator::Exists => !unresolved,
+        CmpOperator::Empty => match kind {
+            1 | 3 => true,
+            2 | 4 => false,
+            6 => false, // the implementation's reading of `empty` on a bool
+            8 => true,  // not exists is the same as empty
+            _ => return None, // `empty` on a number / null: undefined
+        },
+        CmpOperator::IsString => kind == 1 || kind == 2,
+        CmpOperator::IsList => kind == 3 || kind == 4,
+        CmpOperator::IsMap => false,
+        CmpOperator::IsBool => kind == 6,
+        CmpOperator::IsInt => kind == 0,
+        CmpOperator::IsFloat => kind == 7,
+        CmpOperator::IsNull => kind == 5,
+        _ => return None,
+    })
+}
+
+fn unary_one(op: CmpOperator, kind: u8, variable_head: bool) {
+    let not: bool = kani::any();
+    let inverse: bool = kani::any();
+    let key = if variable_head { "%v" } else { "k" };
+    let query: Vec<QueryPart<'static>> = vec![QueryPart::Key(String::from(key))];
+    let mut sel = Vec::with_capacity(1);
+    sel.push(value_of(kind));
+    let mut ctx = QueryCtx { inner: MockCtx::new(), result: Some(sel) };
+    let r = unary_operation(&query, (op, not), inverse, String::new(), None, &mut ctx);
+    // the special case: emptiness test on a bare variable / filter tests the result set element-wise by resolvedness
+    let special = variable_head && op == CmpOperator::Empty;
+    let truth = if special { Some(kind == 8 || kind == 5) } else { unary_truth(op, kind) };
+    match (&r, truth) {
+        (Ok(EvaluationResult::QueryValueResult(v)), Some(t)) => {
+            kani::assert(v.len() == 1, "one result per selected value");
+            let pass = (t != not) != inverse; // C03: prefix not == operator-level not
+            kani::assert(v[0].1 == if pass { Status::PASS } else { Status::FAIL }, "truth(op) XOR not XOR prefix-not");
+            kani::assert(ctx.inner.n == 1 && ctx.inner.log[0].kind == 3 && ctx.inner.log[0].status == if pass { 0 } else { 1 },
+                "one ClauseValueCheck record per value, Success iff the value passes");
+        }
+        (Err(_), None) => {}
+        (Err(_), Some(_)) => kani::assert(false, "an evaluation error only where the semantics is undefined"),
+        (Ok(_), None) => kani::assert(false, "undefined semantics (empty on a number / null) is an evaluation error"),
+        (Ok(EvaluationResult::EmptyQueryResult(_)), Some(_)) => kani::assert(false, "a non-empty selection yields per-value results"),
+    }
+    kani::assert(!ctx.inner.underflow && ctx.inner.depth == 0, "records balanced");
+    std::mem::forget(r);
+    std::mem::forget(ctx);
+    std::mem::forget(query);
+}
+
+fn unary_empty_selection(op: CmpOperator, variable_head: bool) {
+    let not: bool = kani::any();
+    let inverse: bool = kani::any();
+    let key = if variable_head { "%v" } else { "k" };
+    let query: Vec<QueryPart<'static>> = vec![QueryPart::Key(String::from(key))];
+    let mut ctx = QueryCtx { inner: MockCtx::new(), result: Some(Vec::new()) };
+    let r = unary_operation(&query, (op, not), inverse, String::new(), None, &mut ctx);
+    match &r {
+        Ok(EvaluationResult::EmptyQueryResult(s)) => {
+            if variable_head && op == CmpOperator::Empty {
+                // `%v empty` on an empty result set is true; never SKIP
+                let pass = (true != not) != inverse;
+                kani::assert(*s == if pass { Status::PASS } else { Status::FAIL }, "emptiness of an empty result set");
+            } else {
+                kani::assert(*s == Status::SKIP, "an empty (filtered) selection makes the clause SKIP");
+            }
+        }
+        _ => kani::assert(false, "an empty selection yields EmptyQueryResult"),
+    }
+    kani::assert(!ctx.inner.underflow && ctx.inner.depth == 0, "records balanced");
+    std::mem::forget(r);
+    std::mem::forget(ctx);
+    std::mem::forget(query);
+}
+
+macro_rules! unary_harness {
+    ($name:ident, $op:expr) => {
+        #[cfg_attr(kani, kani::proof)]
+        #[cfg_attr(kani, kani::unwind(11))]
+        #[cfg_attr(kani, kani::stub(alloc::fmt::format, fmt_stub))]
+        #[cfg_attr(kani, kani::stub(fancy_regex::Regex::new, regex_new_stub))]
+        #[cfg_attr(verif_replay, test)]
+        fn $name() {
+            lib_only!();
+            let mut kind = 0u8;
+            while kind <= 8 {
+                unary_one($op, kind, false);
+                kind += 1;
+            }
+            unary_empty_selection($op, false);
+        }
+    };
+}
+unary_harness!(k_unary_exists, CmpOperator::Exists);
+unary_harness!(k_unary_empty, CmpOperator::Empty);
+unary_harness!(k_unary_is_string, CmpOperator::IsString);
+unary_harness!(k_unary_is_list, CmpOperator::IsList);
+unary_harness!(k_unary_is_map, CmpOperator::IsMap);
+unary_harness!(k_unary_is_bool, CmpOperator::IsBool);
+unary_harness!(k_unary_is_int, CmpOperator::IsInt);
+unary_harness!(k_unary_is_float, CmpOperator::IsFloat);
+unary_harness!(k_unary_is_null, CmpOperator::IsNull);
+
+/// the result-set special case: `%v empty` / `%v !empty` on a bare variable
+#[cfg_attr(kani, kani::proof)]
+#[cfg_attr(kani, kani::stub(alloc::fmt::format, fmt_stub))]
+#[cfg_attr(kani, kani::stub(fancy_regex::Regex::new, regex_new_stub))]
+#[cfg_attr(kani, kani::unwind(4))]
+#[cfg_attr(verif_replay, test)]
+fn k_unary_empty_on_variable() {
+    lib_only!();
+    unary_one(CmpOperator::Empty, 0, true);
+    unary_one(CmpOperator::Empty, 5, true);
+    unary_one(CmpOperator::Empty, 8, true);
+    unary_empty_selection(CmpOperator::Empty, true);
+    unary_empty_selection(CmpOperator::Exists, true);
+}
